@@ -37,6 +37,11 @@ def family(name, eps, seed=0, nsym=7, gamma=('x',)):
         fixed = [('p', 'a', e, 'q', 'x')]
         sym = [('p', 'a', 'x', 'q', e), ('q', 'a', 'x', 'q', 'x'), ('q', e, 'x', 'p', e), ('p', e, e, 'q', e), ('q', 'a', e, 'q', e),
                ('q', e, e, 'q', 'x'), ('p', 'a', 'x', 'p', 'x'), ('q', 'a', 'x', 'p', e)]
+    elif name == 'replace_only':
+        gamma = ('x', 'y')
+        fixed = [('p', 'a', e, 'q', 'x')]
+        sym = [('q', 'a', 'x', 'q', 'y'), ('q', e, 'x', 'p', 'y'), ('q', 'a', 'y', 'q', e), ('q', e, 'y', 'q', 'x'), ('p', e, 'y', 'q', 'y'),
+               ('p', 'a', 'y', 'p', 'x')]
     elif name == 'two_stack_symbols':
         gamma = ('x', 'y')
         fixed = [('p', 'a', e, 'q', 'x')]
